@@ -219,6 +219,9 @@ pub struct Inner {
 	pub machinery_error: Option<String>,
 	pub decider: Option<Decider>,
 	/// leaves held by a guard that was leaked with mem::forget (never released)
+	/// sequential mode: at environment step n (the foreign holders release because the subject blocks) the
+	/// foreign thread additionally takes this lock if it is free (hand-over patterns)
+	pub env_script: Vec<Option<(u32, Mode)>>,
 	pub leaked: Vec<u32>,
 	/// poison reference model: per flag id 0 = must be false, 1 = must be true, 2 = unconstrained, 3 = panic in flight (either)
 	pub pmodel: std::collections::BTreeMap<u32, u8>,
@@ -420,6 +423,14 @@ impl Inner {
 						self.viol("C05", k, format!("T{} releases L{} in mode {:?} which it does not hold ({}), during `{}`; table: {}", tid, op.lock, op.mode, if other { "held by another thread" } else { "free: double release" }, what, self.table_string()));
 					}
 				}
+				if !note.is_empty() {
+					// A real raw lock does not know its owners: an unlock it was not entitled to still frees
+					// the lock (parking_lot clears the state word). Model that, so that the damage the
+					// illegal release does to mutual exclusion (C02) is visible downstream.
+					let l = &mut self.locks[op.lock as usize];
+					l.excl = None;
+					l.shared.clear();
+				}
 				self.log(tid, call, EvKind::Raw { op, ok: note.is_empty(), note });
 				true
 			}
@@ -519,6 +530,7 @@ impl Exec {
 				blocked_seen: false,
 				machinery_error: None,
 				decider: None,
+				env_script: vec![],
 				leaked: vec![],
 				pmodel: Default::default(),
 				pculprit: Default::default(),
@@ -831,9 +843,19 @@ pub fn raw_op(lock: u32, act: Act, mode: Mode) -> bool {
 				ls.excl = None;
 				ls.shared.clear();
 				ls.queued_writer = false;
+				let step = g.env_steps as usize;
 				g.env_steps += 1;
 				g.blocked_seen = true;
 				g.log(tid, call, EvKind::Env { lock, note: "foreign holders release" });
+				if let Some(Some((gl, gm))) = g.env_script.get(step).cloned() {
+					if gl != lock && g.locks[gl as usize].is_free() {
+						match gm {
+							Mode::Excl => g.locks[gl as usize].excl = Some(FOREIGN),
+							Mode::Shared => g.locks[gl as usize].shared.push(FOREIGN),
+						}
+						g.log(tid, call, EvKind::Env { lock: gl, note: "another thread takes this lock meanwhile" });
+					}
+				}
 				let r = g.apply(tid, op);
 				let o = mix(g.threads[tid].obs, (op.lock as u64) << 16 | (op.act as u64) << 8 | (op.mode as u64) << 4 | r as u64);
 				g.threads[tid].obs = o;
